@@ -36,7 +36,10 @@ META = {
     'assumptions': ['SQLite only: PostgreSQL row locks (FOR UPDATE [NOWAIT|SKIP LOCKED]) and SERIALIZABLE isolation are '
                     'not executed; nowait/skip_locked are accepted by pony on SQLite and behave like plain for_update',
                     'the protected interval starts when the locking call (resp. the first read of a serializable session) '
-                    'returns and ends when the session ends'],
+                    'returns and ends when the session ends',
+                    'observed: db_session(serializable=True) on SQLite is immediate and non-optimistic, i.e. BEGIN IMMEDIATE '
+                    'before its first statement plus the process-wide lock (counter begin_immediate); no lost update was '
+                    'observable, so nothing is proposed as a finding'],
     'shims': [],
     'exhaustive_tiers': [],
 }
